@@ -92,6 +92,7 @@ class TipperSurvey(FEMSurvey, AirborneEMSurvey):
 
         self._base_stations = base
         self.edit_em_metadata({"Base stations": base.uid})
+        base._receivers = self
 
     def copy_from_extent(
         self,
